@@ -363,12 +363,16 @@ fn build_file(fc: &FileCfg, pool: &[(String, Vec<String>)], all_shapes: &[TreeSp
         let ids: Vec<usize> = match fc.assign {
             0 => (1..=nl).collect(),
             1 => (1..=nl).rev().collect(),
-            _ => (0..nl).map(|i| (i * 3 + 1) % nl + 1).collect::<Vec<_>>(),
+            2 => (0..nl).map(|i| (i * 3 + 1) % nl + 1).collect::<Vec<_>>(),
+            // tied leaves: the same PDF selected by more than one branch (first and last leaf share PDF 1; with 4
+            // leaves also the two middle ones share a PDF)
+            _ => (0..nl).map(|i| if nl >= 4 { [1, 2, 2, 1][i % 4] + 2 * (i / 4) } else { i % (nl - 1).max(1) + 1 }).collect::<Vec<_>>(),
         };
         // the fixed permutation must be a permutation
-        let ids = if ids.iter().collect::<BTreeSet<_>>().len() == nl { ids } else { (1..=nl).rev().collect() };
+        let ids = if fc.assign == 3 || ids.iter().collect::<BTreeSet<_>>().len() == nl { ids } else { (1..=nl).rev().collect() };
+        let nl_pdfs = *ids.iter().max().unwrap();
         let qs: Vec<usize> = fc.qtriple.to_vec();
-        (assign(shape, &qs, &mut 0, &ids, &mut 0), nl)
+        (assign(shape, &qs, &mut 0, &ids, &mut 0), nl_pdfs)
     };
     let model = |code: usize, prefix: &str, states: Vec<usize>, half: usize, msd: bool, rot0: usize| -> ModelSpec {
         ModelSpec {
@@ -507,7 +511,7 @@ fn construct_label(path: &[(String, bool)], questions: &HashMap<String, Vec<Stri
 
 pub fn run(tier: Tier) -> i32 {
     let rep = Report::new("C04", tier, "model_checking");
-    rep.set_rule("SCOPE: (a) bundled voice: every model (duration, 3 streams x 5 states, 2 GV) x every label of the label space (corpus + one-group recombinations of the cover set + every distinct corpus value of every field group in 2-4 base labels + typed sweeps of every numeric field over 0..N + phoneme symbols from the voice's own patterns) vs an independent reader of the file + HTS wildcard matcher, bit-exact on means/variances/voicing weight and equal on tree/PDF index; (b) every distinct question of the bundled voice x the label space: crate matcher vs wildcard oracle; (c) generated files: all binary tree shapes with <= 3 internal nodes x 3 leaf numberings x quoted/unquoted x question triples from a pool of real questions (incl. the regex-fallback ones) x layout deviations (states, streams, vector length, window set, order in which the state trees are listed), checked against both the independent reader and the generator's spec (sentinel floats); (d) metadata, options, windows, engine defaults vs the header; distinct = (file, model, state, label); non-trivial = lookups through a tree with more than one leaf");
+    rep.set_rule("SCOPE: (a) bundled voice: every model (duration, 3 streams x 5 states, 2 GV) x every label of the label space (corpus + one-group recombinations of the cover set + every distinct corpus value of every field group in 2-4 base labels + typed sweeps of every numeric field over 0..N + phoneme symbols from the voice's own patterns) vs an independent reader of the file + HTS wildcard matcher, bit-exact on means/variances/voicing weight and equal on tree/PDF index; (b) every distinct question of the bundled voice x the label space: crate matcher vs wildcard oracle; (c) generated files: all binary tree shapes with <= 3 internal nodes x 4 leaf numberings (in order, reversed, permuted, tied: one PDF reached by several branches) x quoted/unquoted x question triples from a pool of real questions (incl. the regex-fallback ones) x layout deviations (states, streams, vector length, window set, order in which the state trees are listed), checked against both the independent reader and the generator's spec (sentinel floats); (d) metadata, options, windows, engine defaults vs the header; distinct = (file, model, state, label); non-trivial = lookups through a tree with more than one leaf");
     rep.assume("labels limited to the stated label space; generated trees have at most 3 internal nodes; the label text matched by the oracle is the label's own serialisation");
     // ---------- question pool from the bundled voice ----------
     let v0b = v0_bytes();
@@ -710,7 +714,7 @@ pub fn run(tier: Tier) -> i32 {
         l
     };
     for shape in 0..all_shapes.len() {
-        for assign in 0..3 {
+        for assign in 0..4 {
             for quoted in [true, false] {
                 for (ti, t) in triples.iter().enumerate() {
                     for (li, l) in layouts.iter().enumerate() {
